@@ -30,11 +30,14 @@ contract(prop=["C18"], file="<abstract>", func="blob_from_path_and_stat@abs", tr
          returns="opaque", raises={ANY: None}, note="reads the file: abstract")
 contract(prop=["C18"], file="<abstract>", func="cleanup_mode@spec", trusted=False if False else True, params={"mode": "nat"}, returns="int",
          ensures=["result == clean_mode(mode)"], note="the contract of cleanup_mode proved above, used at its call sites")
+contract(prop=["C18"], file="<abstract>", func="verify_leading_dirs@abs18", trusted=True, params={"tree_path": "opaque", "safe_prefix": "opaque", "repo_path": "opaque"},
+         returns="None", raises={ANY: None}, note="leading-directory probe: abstract (returns or raises)")
 contract(
     prop=["C18"], file=IX, func="_check_entry_for_changes",
-    params={"tree_path": "bytes", "entry": "obj:IndexEntryAbs", "root_path": "bytes", "filter_blob_callback": "None", "trust_ctime": "bool"},
+    params={"tree_path": "bytes", "entry": "obj:IndexEntryAbs", "root_path": "bytes", "filter_blob_callback": "None", "trust_ctime": "bool", "safe_prefix": "opaque"},
     returns="opaque", raises={ANY: None},
     options={"primitives": {"os.lstat": "os.lstat@abs"}, "callee_contracts": {"_has_directory_changed": ("<abstract>", "_has_directory_changed@abs"),
+                                                                                   "verify_leading_dirs": ("<abstract>", "verify_leading_dirs@abs18"),
                                                                                    "_stat_matches_entry": ("<abstract>", "_stat_matches_entry@abs"),
                                                                                    "blob_from_path_and_stat": ("<abstract>", "blob_from_path_and_stat@abs")},
              "asserts": [("mode-compared-before-stat-shortcut", "if _stat_matches_entry(st, entry, trust_ctime):",
